@@ -1155,3 +1155,79 @@ fire("c11-evaluate-swallows-everything", ["C11"], CFO,
 silent("c11-silent-extend", ["C11"], PR,
        "        if isinstance(item, Sum):\n            queue += item.children\n",
        "        if isinstance(item, Sum):\n            queue += list(item.children)\n")
+
+# ---------------------------------------------------------------------------
+# C12
+# ---------------------------------------------------------------------------
+CSF = "pymbolic/cse.py"
+TGF = "pymbolic/mapper/cse_tagger.py"
+DIF = "pymbolic/mapper/differentiator.py"
+
+fire("c12-wrap-in-cse-wraps-wrappers", ["C12"], PR,
+     "        # existing prefix wins\n        return expr\n\n    else:\n"
+     "        return CommonSubexpression(expr, prefix)",
+     "        # existing prefix wins\n        return CommonSubexpression(expr, prefix)\n\n    else:\n"
+     "        return CommonSubexpression(expr, prefix)",
+     "O/wrap_in_cse/")
+fire("c12-wrap-in-cse-wraps-variables", ["C12"], PR,
+     "    if isinstance(expr, (Variable, Subscript)):\n        return expr\n\n"
+     "    if isinstance(expr, CommonSubexpression):\n        if prefix is None:",
+     "    if isinstance(expr, CommonSubexpression):\n        if prefix is None:",
+     "O/wrap_in_cse/")
+fire("c12-commutative-classes-grow", ["C12"], CSF,
+     "COMMUTATIVE_CLASSES = (prim.Sum, prim.Product)",
+     "COMMUTATIVE_CLASSES = (prim.Sum, prim.Product, prim.BitwiseOr, prim.Min)",
+     "T/NormalizedKeyGetter/commutative-classes")
+fire("c12-key-is-set-not-multiset", ["C12"], CSF,
+     "            return type(expr), frozenset(kid_count.items())",
+     "            return type(expr), frozenset(kid_count)",
+     "T/NormalizedKeyGetter/multiset-key")
+fire("c12-visit-retraverses", ["C12"], CSF,
+     "            # do not re-traverse (and thus re-count subexpressions)\n"
+     "            return False",
+     "            return True",
+     "P/UseCountMapper.visit/repeat-stops")
+fire("c12-different-key-getters", ["C12"], CSF,
+     "    cse_mapper = CSEMapper(to_eliminate, get_key)",
+     "    cse_mapper = CSEMapper(to_eliminate, lambda e: e)",
+     "S/tag_common_subexpressions/shared-key-getter")
+fire("c12-threshold-ge-one", ["C12"], CSF,
+     "        if count > 1}", "        if count >= 1}",
+     "P/tag_common_subexpressions/threshold")
+fire("c12-csemapper-direct-wrap", ["C12"], CSF,
+     "            new_expr = prim.wrap_in_cse(\n"
+     "                    getattr(IdentityMapper, expr.mapper_method)(self, expr))",
+     "            new_expr = prim.CommonSubexpression(\n"
+     "                    getattr(IdentityMapper, expr.mapper_method)(self, expr))",
+     "P/CSEMapper.get_cse/miss")
+fire("c12-csemapper-double-wrap", ["C12"], CSF,
+     "            return prim.wrap_in_cse(self.rec(expr.child), expr.prefix)",
+     "            return prim.CommonSubexpression(self.rec(expr.child), expr.prefix)",
+     "O/CSEMapper/map_common_subexpression")
+fire("c12-csemapper-not-canonical", ["C12"], CSF,
+     "            self.canonical_subexprs[key] = new_expr\n            return new_expr",
+     "            return new_expr",
+     "P/CSEMapper.get_cse/miss")
+fire("c12-csemapper-power-not-intercepted", ["C12"], CSF,
+     "    map_power = map_sum\n", "",
+     "O/CSEMapper/interceptors")
+fire("c12-revert-tagger-fix", ["C12"], TGF,
+     "        if type(result) is CommonSubexpression:\n            result = result.child\n", "",
+     "O/CSETagMapper/map_common_subexpression/no-double-wrap")
+fire("c12-mixin-loses-mro", ["C12", "C02"], EVF,
+     "class EvaluationMapper(RecursiveMapper, CSECachingMapperMixin):",
+     "class EvaluationMapper(RecursiveMapper, CSECachingMapperMixin):\n"
+     "    def map_common_subexpression(self, expr):\n        return self.rec(expr.child)\n",
+     "S/cse-mixin-mro/EvaluationMapper")
+fire("c12-make-cse-wraps-constants", ["C12"], PR,
+     "        if is_constant(field):\n            return field\n        else:\n"
+     "            return CommonSubexpression(field, prefix, scope)",
+     "        return CommonSubexpression(field, prefix, scope)",
+     "O/make_common_subexpression")
+silent("c12-silent-visit-form", ["C12"], CSF,
+       "        if key in self.subexpr_counts:\n            self.subexpr_counts[key] += 1\n\n"
+       "            # do not re-traverse (and thus re-count subexpressions)\n"
+       "            return False\n        else:\n            self.subexpr_counts[key] = 1\n\n"
+       "            # continue traversing\n            return True",
+       "        if key not in self.subexpr_counts:\n            self.subexpr_counts[key] = 1\n"
+       "            return True\n        self.subexpr_counts[key] += 1\n        return False")
